@@ -194,13 +194,24 @@ func TestC02_PoolMembership(t *testing.T) {
 			rrOpts = append(rrOpts, roundrobin.EnableStickySession(roundrobin.NewStickySession("sid")))
 			rbOpts = append(rbOpts, roundrobin.RebalancerStickySession(roundrobin.NewStickySession("sid")))
 		}
-		build := func(handler http.Handler) (pool, func() (*url.URL, error), func(*url.URL) (int, bool)) {
+		// a request-rewrite listener (public option) sees the client's request and the re-targeted one
+		withListener := rapid.IntRange(0, 2).Draw(t, "rewriteListener") == 0
+		var lisCalls int
+		var lisNew, lisOld string
+		listener := func(oldReq, newReq *http.Request) {
+			lisCalls++
+			lisOld, lisNew = oldReq.URL.String(), key(newReq.URL)
+		}
+		build := func(handler http.Handler, lis roundrobin.RequestRewriteListener) (pool, func() (*url.URL, error), func(*url.URL) (int, bool)) {
 			if useRebalancer {
 				rr, err := roundrobin.New(handler)
 				if err != nil {
 					t.Fatal(err)
 				}
 				opts := append([]roundrobin.RebalancerOption{}, rbOpts...)
+				if lis != nil {
+					opts = append(opts, roundrobin.RebalancerRequestRewriteListener(lis))
+				}
 				opts = append(opts, roundrobin.RebalancerMeter(func() (roundrobin.Meter, error) {
 					if meterFails {
 						return nil, errors.New("meter constructor failed")
@@ -219,16 +230,24 @@ func TestC02_PoolMembership(t *testing.T) {
 				}
 				return rb, rr.NextServer, rr.ServerWeight
 			}
-			rr, err := roundrobin.New(handler, rrOpts...)
+			o2 := append([]roundrobin.LBOption{}, rrOpts...)
+			if lis != nil {
+				o2 = append(o2, roundrobin.RoundRobinRequestRewriteListener(lis))
+			}
+			rr, err := roundrobin.New(handler, o2...)
 			if err != nil {
 				t.Fatal(err)
 			}
 			return rr, rr.NextServer, rr.ServerWeight
 		}
-		p, nextServer, serverWeight := build(mkHandler(&invoked, &seenKey))
+		var lis roundrobin.RequestRewriteListener
+		if withListener {
+			lis = listener
+		}
+		p, nextServer, serverWeight := build(mkHandler(&invoked, &seenKey), lis)
 		// the twin receives the same history WITHOUT the removals of unknown servers: "fails and
 		// changes nothing" means both keep choosing the same servers
-		twin, twinNext, _ := build(mkHandler(&invoked2, &seenKey2))
+		twin, twinNext, _ := build(mkHandler(&invoked2, &seenKey2), nil)
 		m := &model{}
 		var log []string
 		ntRemovalAfterUpdate, ntDupSpelling, ntUnknownRemove, ntMutSticky := false, false, false, false
@@ -288,7 +307,11 @@ func TestC02_PoolMembership(t *testing.T) {
 			before := renderServers(p)
 			invoked, seenKey, mutate = 0, "", mut
 			rec := httptest.NewRecorder()
+			lisCalls, lisNew, lisOld = 0, "", ""
 			p.ServeHTTP(rec, req)
+			if withListener && (lisCalls != invoked || (invoked == 1 && (lisNew != seenKey || lisOld != "http://client/c"))) {
+				t.Fatalf("the rewrite listener ran %d times (handler %d times), saw the client's request as %q and the new target as %q; the handler saw %q\nhistory: %s", lisCalls, invoked, lisOld, lisNew, seenKey, strings.Join(log, "; "))
+			}
 			invoked2, seenKey2 = 0, ""
 			twin.ServeHTTP(httptest.NewRecorder(), req.Clone(req.Context()))
 			mutate = 0
